@@ -137,6 +137,9 @@ func NondetU64(name string) uint64 {
 }
 func NondetInt(name string) int { v, _ := strconv.ParseInt(next("int", name), 10, 64); return int(v) }
 func NondetStr(name string) string { return next("str", name) }
+
+// NondetAtom is an arbitrary string without a space character.
+func NondetAtom(name string) string { return next("atom", name) }
 func NondetHash(name string) chainhash.Hash {
 	h, err := chainhash.NewHashFromStr(next("hash", name))
 	if err != nil {
